@@ -301,11 +301,25 @@ func ruleC11a(c *Ctx) []*report.Result {
 					continue
 				}
 				g := ci.Common().StaticCallee()
+				shift := 0
+				if g == nil && ci.Common().IsInvoke() {
+					// a call through an interface (`w.(interface{ Grow(int) })`): any
+					// growth function of that name and arity may be the target
+					m := ci.Common().Method
+					for cand := range gp {
+						if cand.Signature.Recv() != nil && cand.Name() == m.Name() && len(cand.Params)-1 == len(ci.Common().Args) {
+							g, shift = cand, 1
+						}
+					}
+				}
 				if g == nil || len(gp[g]) == 0 {
 					continue
 				}
 				for _, idx := range gp[g] {
-					arg := ci.Common().Args[idx]
+					if idx-shift < 0 || idx-shift >= len(ci.Common().Args) {
+						continue
+					}
+					arg := ci.Common().Args[idx-shift]
 					// forwarding of the caller's own growth parameter is checked at the caller's call sites
 					if p, ok := arg.(*ssa.Parameter); ok && containsInt(gp[caller], paramIndex(caller, p)) {
 						// exported callers must guard
